@@ -95,7 +95,7 @@ var classBytes = map[string][]byte{
 	"DQ": []byte(`"`), "BS": []byte(`\`), "TAB": {0x09}, "LF": {0x0a}, "CR": {0x0d},
 	"BOM": []byte("\uFEFF"), "U2": []byte("\u00e9"), "U3": []byte("\u2028"), "U4": []byte("\U0001F600"),
 	"U4NP": []byte("\U000E0001"), "BEL": {0x07}, "NUL": {0x00}, "BKSP": {0x08}, "FF": {0x0c}, "VT": {0x0b},
-	"DEL": {0x7f},
+	"DEL": {0x7f}, "SI": {0x0f}, "L72": []byte(strings.Repeat("a", 72)),
 }
 
 // bytesOfClass renders one character class (or continuation unit "X:n", or decoded escape
